@@ -14,7 +14,8 @@ use tokio::{
 use tosub::SubsystemHandle;
 use tracing::{debug, error, info, trace, warn};
 use worterbuch_common::{
-    ClientId, GraveGoods, Key, KeySegment, KeyValuePair, LastWill, ValueEntry, parse_segments,
+    ClientId, GraveGoods, Key, KeySegment, KeyValuePair, LastWill, SYSTEM_TOPIC_ROOT,
+    SYSTEM_TOPIC_ROOT_PREFIX, ValueEntry, parse_segments,
 };
 
 const TABLE_V1: TableDefinition<Key, String> = TableDefinition::new("worterbuch");
@@ -461,7 +462,15 @@ fn apply_grave_good(
 ) -> PersistenceResult<()> {
     for pattern in grave_goods {
         let path = KeySegment::parse(&pattern);
-        let (removed, _) = store.delete_matches(&path)?;
+        // the running server logs and skips a pattern it cannot apply when a session ends; a
+        // restart must not give up loading the whole store because of it
+        let (removed, _) = match store.delete_matches(&path) {
+            Ok(it) => it,
+            Err(e) => {
+                warn!("Ignoring grave goods pattern '{pattern}' that cannot be applied: {e}");
+                continue;
+            }
+        };
         trace!("Found grave goods for pattern {pattern}: {removed:?}");
         for kvp in removed {
             if table.remove(&kvp.key)?.is_some() {
@@ -478,7 +487,19 @@ fn apply_last_will(
     table: &mut redb::Table<'_, Key, ValueEntry>,
 ) -> PersistenceResult<()> {
     for KeyValuePair { key, value } in last_will {
-        let path = parse_segments(&key)?;
+        // same keys the running server refuses when it publishes a last will: empty keys, keys
+        // with wildcards, anything under $SYS
+        if key.is_empty() || key == SYSTEM_TOPIC_ROOT || key.starts_with(SYSTEM_TOPIC_ROOT_PREFIX) {
+            warn!("Ignoring last will for key '{key}' that cannot be written.");
+            continue;
+        }
+        let path = match parse_segments(&key) {
+            Ok(it) => it,
+            Err(e) => {
+                warn!("Ignoring last will for key '{key}' that cannot be written: {e}");
+                continue;
+            }
+        };
         store.insert_plain(&path, value.clone(), true)?;
         table.insert(key, ValueEntry::Plain(value))?;
     }
